@@ -235,4 +235,14 @@ def specDoc (a : DocArgs) : Verdict :=
       else .reject
     | _ => .free
 
+/-- the statement's verdict on real frames: "grouping columns missing from the data" speaks about the column
+names, whatever the number of rows (a "no observations" table included) -/
+def specDocData (d : DfData) (a : DocArgs) : Verdict :=
+  specDoc { a with df := d.toArg }
+
+/-- some name of some grouping option of `b` is not a column -/
+def missingName (cols : List String) (b : BodySpec) (name : String) : Bool :=
+  !cols.contains name &&
+    ((b.groupBy.getD []).contains name || (b.pageBy.getD []).contains name || (b.sublineBy.getD []).contains name)
+
 end Model.ValidateSpec
